@@ -15,7 +15,7 @@ RULE = ("A real Zeroconf registers a service (v4/v6/dual/multi-address, custom T
         "delay 0/1/50 ms) while (a) nothing conflicts, (b) a conflicting PTR for the same type+instance name is injected at an "
         "offset on a 5 ms grid over [-50,400] ms around the three probe instants (plus the instants +-1 ms), with 0..4 "
         "pre-populated '-N' names, rename allowed or not, or (c) a second real instance owns the name and answers the probe over a "
-        "link with 0..85 ms one-way delay. The host's wire trace is decoded by the independent parser: three probes 175 ms apart "
+        "link with 0..150 ms one-way delay. The host's wire trace is decoded by the independent parser: three probes 175 ms apart "
         "(QU PTR question for the type, proposed PTR in the authority section, nothing else), no record of the service multicast "
         "before the last probe, three complete announcements 225 ms apart (PTR, SRV, TXT, all A/AAAA, NSEC when a family is "
         "missing; flush bit exactly on non-PTR records); conflict before the last probe check => NonUniqueNameException or first "
@@ -55,7 +55,7 @@ def gen_scenario(rng: random.Random) -> Dict[str, Any]:
         sc["chain"] = rng.choice([0, 0, 1, 2, 4])
         sc["prepopulated"] = rng.random() < 0.2    # conflict already cached long before registration
     elif variant == "peer":
-        sc["delay"] = rng.choice([0.0, 1.0, 30.0, 60.0, 85.0])
+        sc["delay"] = rng.choice([0.0, 1.0, 30.0, 60.0, 85.0, 120.0, 150.0])   # one-way; a probe reply is back within 300 ms < 350 ms
         sc["chain"] = rng.choice([0, 0, 1])
     return sc
 
